@@ -6,9 +6,9 @@ FN_FOR = {
     'C02': ['fn/visibility', 'fn/qualifiers', 'fn/attrs-async', 'fn/patterns'],
     'C03': ['fn/deps-decl', 'fn/deps-decl-2generics', 'fn/qualifiers', 'fn/attrs-async', 'fn/lifetime-bounds'],
     'C04': ['fn/deps-decl', 'fn/deps-decl-2generics', 'fn/opts/'],
-    'C05': ['fn/deps-decl'],
+    'C05': ['fn/deps-decl', 'fn/opts-concrete/'],
     'C08': ['fn/qualifiers'],
-    'C10': ['fn/opts/'],
+    'C10': ['fn/opts/', 'fn/opts-concrete/'],
     'C11': ['fn/opts/', 'fn/unmock', 'fn/unmock-fname'],
     'C12': ['fn/attrs-async', 'fn/async-deps'],
     'C13': ['fn/visibility', 'front/attr/fn'],
